@@ -211,7 +211,7 @@ class _Collect:
         self.at.append(self.obs.current())
 
     def on_return(self, i, op, kind, L):
-        self.rets.append((len(self.at), self.obs.current()))
+        self.rets.append((len(self.at), self.obs.current(), dict(L)))
 
 
 class _KillAt:
@@ -272,7 +272,9 @@ def _kill_once(backend, ops, k, mode, at, disk, seed=None, n_ops=None, rets=None
         p = subprocess.run([sys.executable, "-B", "-m", "vlib.crash_child", backend, path, str(seed), str(n_ops), str(k)], env=envv, cwd=env.VERIF, stdout=subprocess.PIPE, stderr=subprocess.STDOUT)
         if p.returncode != 0:
             raise RuntimeError(f"crash child failed: {p.stdout[-800:].decode(errors='replace')}")
-        expected = next((d for n, d in rets if n >= k), rets[-1][1])
+        ret = next((r for r in rets if r[0] >= k), rets[-1])
+        expected = ret[1]
+        flushed = ret[2]  # a store may also flush what it has buffered when the interpreter exits normally: then the file holds the writer's own view at that operation boundary
     else:
         pid = os.fork()
         if pid == 0:
@@ -282,7 +284,7 @@ def _kill_once(backend, ops, k, mode, at, disk, seed=None, n_ops=None, rets=None
         got = stores.fresh_dump(path)
     finally:
         env.rm(path)
-    if got != expected:
+    if got != expected and not (mode == "exit" and got == flushed):
         raise Violation(
             f"{backend}: process died ({mode}) before SQL statement #{k}; the reopened file differs from the in-process observation in {crash.diff_count(got, at[k])} rows",
             key="real_crash_mismatch",
